@@ -162,7 +162,7 @@ impl Prop for C11 {
         "C11"
     }
     fn phases(&self, tier: Tier) -> Vec<PhaseSpec> {
-        vec![ph("curves x 5 rules (both constructors)", tier.pick(10_000, 1_000_000)), ph("index_left on float lists", tier.pick(5_000, 300_000))]
+        vec![ph("curves x 5 rules (both constructors)", tier.pick(40_000, 1_500_000)), ph("index_left on float lists", tier.pick(20_000, 500_000))]
     }
     fn required_classes(&self, _tier: Tier) -> Vec<String> {
         let mut v = vec![];
